@@ -166,7 +166,7 @@ Proof. apply pair_eq_by_eqb. vm_compute. reflexivity. Qed.
 Print Assumptions C17_example.
 
 (** ---- more bodies REGENERATED as glue terms and proved equal to the model (leaves: Model/GlueLeaves2.v) ---- *)
-From TW Require Import Model.GlueLeaves2 Gen.MatchGlue Gen.UtilsGlue Proofs.GlueMoreProofs.
+From TW Require Import Model.GlueLeaves2 Gen.UtilsGlue Proofs.GlueHelperProofs.
 Open Scope string_scope.
 Theorem C17_glue_extend_constant : forall a n d, a <> [] ->
   outcome_arr (call_fun helper_callf helper_methf no_apply no_pow utils_functions "extend_constant"
